@@ -164,4 +164,227 @@ THEOREM QueueBoundedHolds == Spec => []QueueBounded
 <1>3. QInv => QueueBounded
   BY DEF QInv, QueueBounded
 <1> QED BY <1>1, <1>2, <1>3, PTL DEF Spec
+(* C12: a 0-to-1 change of a condition register bit is latched in the event register of the same group; *)
+(* nothing but a register write changes a condition register                                           *)
+DomInv == DOMAIN reg = Regs
+
+LEMMA WriteRegShape == \A r, n, v : (DOMAIN r = Regs) =>
+         /\ DOMAIN WriteReg(r, n, v) = Regs
+         /\ \A c \in CondRegs : (WriteReg(r, n, v)[c] \ r[c]) \subseteq WriteReg(r, n, v)[EventOf(c)]
+  <1> SUFFICES ASSUME NEW r, NEW n, NEW v, DOMAIN r = Regs
+               PROVE /\ DOMAIN WriteReg(r, n, v) = Regs
+                     /\ \A c \in CondRegs : (WriteReg(r, n, v)[c] \ r[c]) \subseteq WriteReg(r, n, v)[EventOf(c)]
+    OBVIOUS
+  <1>0. /\ CondRegs \subseteq Regs /\ EventRegs \subseteq Regs /\ CondRegs \cap EventRegs = {}
+        /\ \A c \in CondRegs : EventOf(c) \in EventRegs
+    BY DEF Regs, CondRegs, EventRegs, EnableRegs, EventOf
+  <1>1. CASE n = "STB"
+    BY <1>1 DEF WriteReg
+  <1>2. CASE n # "STB" /\ n \in CondRegs
+    <2>1. WriteReg(r, n, v) = [r EXCEPT ![n] = v, ![EventOf(n)] = @ \cup (v \ r[n])]
+      BY <1>2 DEF WriteReg
+    <2>2. n \in Regs /\ EventOf(n) \in Regs /\ EventOf(n) # n
+      BY <1>0, <1>2
+    <2>3. WriteReg(r, n, v)[n] = v /\ WriteReg(r, n, v)[EventOf(n)] = r[EventOf(n)] \cup (v \ r[n])
+      BY <2>1, <2>2
+    <2>4. \A c \in CondRegs : c # n => WriteReg(r, n, v)[c] = r[c]
+      BY <2>1, <2>2, <1>0, <1>2
+    <2> QED BY <2>1, <2>3, <2>4, <1>0
+  <1>3. CASE n # "STB" /\ n \notin CondRegs
+    <2>1. WriteReg(r, n, v) = [r EXCEPT ![n] = v]
+      BY <1>3 DEF WriteReg
+    <2>2. \A c \in CondRegs : WriteReg(r, n, v)[c] = r[c]
+      BY <2>1, <1>3, <1>0
+    <2> QED BY <2>1, <2>2
+  <1> QED BY <1>1, <1>2, <1>3
+LEMMA EffectCond == \A r, qq, op, cap : (DOMAIN r = Regs) =>
+         /\ DOMAIN Effect(r, qq, op, cap).reg = Regs
+         /\ \A c \in CondRegs : (Effect(r, qq, op, cap).reg[c] \ r[c]) \subseteq Effect(r, qq, op, cap).reg[EventOf(c)]
+  <1> SUFFICES ASSUME NEW r, NEW qq, NEW op, NEW cap, DOMAIN r = Regs
+               PROVE /\ DOMAIN Effect(r, qq, op, cap).reg = Regs
+                     /\ \A c \in CondRegs : (Effect(r, qq, op, cap).reg[c] \ r[c]) \subseteq Effect(r, qq, op, cap).reg[EventOf(c)]
+    OBVIOUS
+  <1> DEFINE E == Effect(r, qq, op, cap)
+  <1>0. /\ CondRegs \subseteq Regs /\ "ESR" \in Regs /\ "ESE" \in Regs /\ "SRE" \in Regs /\ "QUES" \in Regs /\ "OPER" \in Regs
+        /\ "QUESE" \in Regs /\ "OPERE" \in Regs
+        /\ \A c \in CondRegs : c \notin {"ESR", "ESE", "SRE", "QUES", "OPER", "QUESE", "OPERE"}
+    BY DEF Regs, CondRegs, EventRegs, EnableRegs
+  <1>1. CASE op[1] = "set"
+    <2>1. E.reg = WriteReg(r, op[2], op[3])
+      BY <1>1 DEF Effect
+    <2> QED BY <2>1, WriteRegShape
+  <1>2. CASE op[1] = "setbits"
+    <2>1. E.reg = r \/ E.reg = WriteReg(r, op[2], r[op[2]] \cup op[3])
+      BY <1>2 DEF Effect
+    <2> QED BY <2>1, WriteRegShape
+  <1>3. CASE op[1] = "clrbits"
+    <2>1. E.reg = r \/ E.reg = WriteReg(r, op[2], r[op[2]] \ op[3])
+      BY <1>3 DEF Effect
+    <2> QED BY <2>1, WriteRegShape
+  <1>4. CASE op[1] = "push"
+    <2>1. E.reg = [r EXCEPT !["ESR"] = @ \cup ClassBits(op[2]) \cup (IF QOverflows(qq, cap) THEN {DER} ELSE {})]
+      BY <1>4 DEF Effect
+    <2> QED BY <2>1, <1>0
+  <1>5. CASE op[1] \in {"pop", "clear", "count"}
+    <2>1. E.reg = r
+      BY <1>5 DEF Effect
+    <2> QED BY <2>1
+  <1>6. CASE op[1] \notin {"set", "setbits", "clrbits", "push", "pop", "clear", "count"}
+    <2>1. \E n \in {"ESR", "ESE", "SRE", "QUES", "OPER", "QUESE", "OPERE"}, v \in {{}, op[3], r["ESR"] \cup {OPC}} :
+             E.reg = r \/ E.reg = [r EXCEPT ![n] = v] \/ E.reg = [r EXCEPT !["ESR"] = {}, !["OPER"] = {}, !["QUES"] = {}]
+      BY <1>6 DEF Effect
+    <2> QED BY <2>1, <1>0
+  <1> QED BY <1>1, <1>2, <1>3, <1>4, <1>5, <1>6
+
+THEOREM LatchHolds == Spec => Latch
+<1>1. Init => DomInv
+  BY DEF Init, DomInv
+<1>2. DomInv /\ [Next]_vars => DomInv' /\ (\A c \in CondRegs : (reg'[c] \ reg[c]) \subseteq reg'[EventOf(c)])
+  <2> SUFFICES ASSUME DomInv, [Next]_vars PROVE DomInv' /\ (\A c \in CondRegs : (reg'[c] \ reg[c]) \subseteq reg'[EventOf(c)])
+    OBVIOUS
+  <2>1. CASE UNCHANGED vars
+    BY <2>1 DEF vars, DomInv
+  <2>2. CASE Next
+    <3>1. PICK op \in Ops : Do(op)
+      BY <2>2 DEF Next
+    <3>2. reg' = Effect(reg, q, op, Cap).reg
+      BY <3>1 DEF Do, Apply
+    <3> QED BY <3>2, EffectCond DEF DomInv
+  <2> QED BY <2>1, <2>2
+<1> QED BY <1>1, <1>2, PTL DEF Spec, Latch
+(* C12: a queued error sets the standard-event bit of its class, and nothing else but the marker's bit on overflow *)
+THEOREM PushSetsClassBitHolds == Spec => PushSetsClassBit
+<1> DEFINE P == lastOp'[1] = "push" =>
+                  /\ ClassBits(lastOp'[2]) \subseteq reg'["ESR"]
+                  /\ reg'["ESR"] \ reg["ESR"] \subseteq ClassBits(lastOp'[2]) \cup ClassBits(QueueOverflow)
+                  /\ (q'[Len(q')] = QueueOverflow => DER \in reg'["ESR"])
+<1>1. Init => DomInv /\ QInv
+  BY CapPositive DEF Init, DomInv, QInv
+<1>2. DomInv /\ QInv /\ [Next]_vars => DomInv' /\ QInv' /\ (P \/ UNCHANGED vars)
+  <2> SUFFICES ASSUME DomInv, QInv, [Next]_vars, ~UNCHANGED vars PROVE DomInv' /\ QInv' /\ P
+    BY DEF vars, DomInv, QInv
+  <2>1. PICK op \in Ops : Do(op)
+    BY DEF Next
+  <2>2. reg' = Effect(reg, q, op, Cap).reg /\ q' = Effect(reg, q, op, Cap).q /\ lastOp' = op
+    BY <2>1 DEF Do, Apply
+  <2>3. DomInv' /\ QInv'
+    BY <2>2, EffectCond, EffectQ, CapPositive, OpsTyped DEF DomInv, QInv
+  <2>4. ASSUME op[1] = "push" PROVE P
+    <3>1. reg' = [reg EXCEPT !["ESR"] = @ \cup ClassBits(op[2]) \cup (IF QOverflows(q, Cap) THEN {DER} ELSE {})]
+      BY <2>2, <2>4 DEF Effect
+    <3>2. q' = QPush(q, op[2], Cap)
+      BY <2>2, <2>4 DEF Effect
+    <3>3. "ESR" \in Regs
+      BY DEF Regs, EventRegs
+    <3>4. reg'["ESR"] = reg["ESR"] \cup ClassBits(op[2]) \cup (IF QOverflows(q, Cap) THEN {DER} ELSE {})
+      BY <3>1, <3>3 DEF DomInv
+    <3>5. ClassBits(QueueOverflow) = {DER}
+      BY DEF ClassBits, QueueOverflow, DER, CER, EER, QER, PON, URQ, REQ, OPC
+    <3>6. q'[Len(q')] = QueueOverflow => DER \in reg'["ESR"]
+      <4>1. CASE Len(q) < Cap
+        <5>1. q' = Append(q, op[2]) /\ q'[Len(q')] = op[2]
+          BY <3>2, <4>1 DEF QPush, QInv
+        <5>2. op[2] = QueueOverflow => DER \in ClassBits(op[2])
+          BY <3>5
+        <5> QED BY <5>1, <5>2, <3>4
+      <4>2. CASE ~(Len(q) < Cap)
+        BY <4>2, <3>4, CapPositive DEF QOverflows, QInv
+      <4> QED BY <4>1, <4>2
+    <3> QED BY <2>2, <3>4, <3>5, <3>6
+  <2>5. ASSUME op[1] # "push" PROVE P
+    BY <2>2, <2>5
+  <2> QED BY <2>3, <2>4, <2>5
+<1> QED BY <1>1, <1>2, PTL DEF Spec, PushSetsClassBit
+(* C12: event bits stay set until an operation defined to clear them *)
+OpKinds == {"set", "setbits", "clrbits", "push", "pop", "clear", "count", "cmd"}
+LEMMA EffectSticky == \A r, qq, op, cap, n : (DOMAIN r = Regs /\ n \in EventRegs /\ op[1] \in OpKinds /\ r[n] \ Effect(r, qq, op, cap).reg[n] # {})
+                         => ClearsEvent(op, n)
+  <1> SUFFICES ASSUME NEW r, NEW qq, NEW op, NEW cap, NEW n, DOMAIN r = Regs, n \in EventRegs, op[1] \in OpKinds, r[n] \ Effect(r, qq, op, cap).reg[n] # {}
+               PROVE ClearsEvent(op, n)
+    OBVIOUS
+  <1>K. op[1] \notin {"set", "setbits", "clrbits", "push", "pop", "clear", "count"} => op[1] = "cmd"
+    BY DEF OpKinds
+  <1> DEFINE E == Effect(r, qq, op, cap)
+  <1>0. /\ EventRegs \subseteq Regs /\ CondRegs \subseteq Regs /\ EnableRegs \subseteq Regs /\ "SRE" \in Regs
+        /\ EventRegs = {"ESR", "OPER", "QUES"} /\ EventRegs \cap CondRegs = {} /\ "STB" \notin Regs
+        /\ \A c \in CondRegs : EventOf(c) \in EventRegs
+    BY DEF Regs, CondRegs, EventRegs, EnableRegs, EventOf
+  <1>W. \A m, v : WriteReg(r, m, v)[n] = r[n] \/ m = n \/ r[n] \subseteq WriteReg(r, m, v)[n]
+    <2> TAKE m, v
+    <2>1. CASE m = "STB"
+      BY <2>1 DEF WriteReg
+    <2>2. CASE m # "STB" /\ m \in CondRegs
+      <3>1. WriteReg(r, m, v) = [r EXCEPT ![m] = v, ![EventOf(m)] = @ \cup (v \ r[m])]
+        BY <2>2 DEF WriteReg
+      <3>2. m \in Regs /\ EventOf(m) \in Regs /\ m # n
+        BY <1>0, <2>2
+      <3>3. CASE EventOf(m) = n
+        BY <3>1, <3>2, <3>3, <1>0
+      <3>4. CASE EventOf(m) # n
+        BY <3>1, <3>2, <3>4, <1>0
+      <3> QED BY <3>3, <3>4
+    <2>3. CASE m # "STB" /\ m \notin CondRegs
+      <3>1. WriteReg(r, m, v) = [r EXCEPT ![m] = v]
+        BY <2>3 DEF WriteReg
+      <3> QED BY <3>1, <1>0
+    <2> QED BY <2>1, <2>2, <2>3
+  <1>1. CASE op[1] = "set"
+    <2>1. E.reg = WriteReg(r, op[2], op[3])
+      BY <1>1 DEF Effect
+    <2> QED BY <2>1, <1>W, <1>1 DEF ClearsEvent
+  <1>2. CASE op[1] = "setbits"
+    <2>1. E.reg = r \/ E.reg = WriteReg(r, op[2], r[op[2]] \cup op[3])
+      BY <1>2 DEF Effect
+    <2>2. op[2] = n => r[n] \subseteq WriteReg(r, op[2], r[op[2]] \cup op[3])[n]
+      <3>1. n # "STB" /\ n \notin CondRegs /\ n \in Regs
+        BY <1>0
+      <3> QED BY <3>1 DEF WriteReg
+    <2> QED BY <2>1, <2>2, <1>W
+  <1>3. CASE op[1] = "clrbits"
+    <2>1. E.reg = r \/ E.reg = WriteReg(r, op[2], r[op[2]] \ op[3])
+      BY <1>3 DEF Effect
+    <2> QED BY <2>1, <1>W, <1>3 DEF ClearsEvent
+  <1>4. CASE op[1] = "push"
+    <2>1. E.reg = [r EXCEPT !["ESR"] = @ \cup ClassBits(op[2]) \cup (IF QOverflows(qq, cap) THEN {DER} ELSE {})]
+      BY <1>4 DEF Effect
+    <2> QED BY <2>1, <1>0
+  <1>5. CASE op[1] \in {"pop", "clear", "count"}
+    <2>1. E.reg = r
+      BY <1>5 DEF Effect
+    <2> QED BY <2>1
+  <1>6. CASE op[1] \notin {"set", "setbits", "clrbits", "push", "pop", "clear", "count"}
+    <2>1. CASE op[2] = "*CLS"
+      BY <1>6, <1>K, <2>1 DEF ClearsEvent
+    <2>2. CASE op[2] = "*ESR?"
+      <3>1. E.reg = [r EXCEPT !["ESR"] = {}]
+        BY <1>6, <2>2 DEF Effect
+      <3> QED BY <3>1, <1>0, <1>6, <1>K, <2>2 DEF ClearsEvent
+    <2>3. CASE op[2] \in {"STAT:QUES?", "STAT:PRES"}
+      <3>1. E.reg = [r EXCEPT !["QUES"] = {}]
+        BY <1>6, <2>3 DEF Effect
+      <3> QED BY <3>1, <1>0, <1>6, <1>K, <2>3 DEF ClearsEvent
+    <2>4. CASE op[2] = "STAT:OPER?"
+      <3>1. E.reg = [r EXCEPT !["OPER"] = {}]
+        BY <1>6, <2>4 DEF Effect
+      <3> QED BY <3>1, <1>0, <1>6, <1>K, <2>4 DEF ClearsEvent
+    <2>5. CASE op[2] \notin {"*CLS", "*ESR?", "STAT:QUES?", "STAT:PRES", "STAT:OPER?"}
+      <3>1. \E m \in {"ESE", "SRE", "QUESE", "OPERE"} : E.reg = r \/ E.reg = [r EXCEPT ![m] = op[3]] \/ E.reg = [r EXCEPT !["ESR"] = @ \cup {OPC}]
+        BY <1>6, <2>5 DEF Effect
+      <3> QED BY <3>1, <1>0
+    <2> QED BY <2>1, <2>2, <2>3, <2>4, <2>5
+  <1> QED BY <1>1, <1>2, <1>3, <1>4, <1>5, <1>6
+
+ASSUME OpsKinded == \A op \in Ops : op[1] \in OpKinds
+THEOREM StickyHolds == Spec => Sticky
+<1>1. Init => DomInv
+  BY DEF Init, DomInv
+<1>2. DomInv /\ [Next]_vars => DomInv' /\ ((\A n \in EventRegs : (reg[n] \ reg'[n] # {}) => ClearsEvent(lastOp', n)) \/ UNCHANGED vars)
+  <2> SUFFICES ASSUME DomInv, [Next]_vars, ~UNCHANGED vars PROVE DomInv' /\ (\A n \in EventRegs : (reg[n] \ reg'[n] # {}) => ClearsEvent(lastOp', n))
+    BY DEF vars, DomInv
+  <2>1. PICK op \in Ops : Do(op)
+    BY DEF Next
+  <2>2. reg' = Effect(reg, q, op, Cap).reg /\ lastOp' = op
+    BY <2>1 DEF Do, Apply
+  <2> QED BY <2>2, EffectCond, EffectSticky, OpsKinded DEF DomInv
+<1> QED BY <1>1, <1>2, PTL DEF Spec, Sticky
 =============================================================================
